@@ -93,7 +93,11 @@ fn check_row(r_type: u32, known_rows: bool, top_value: bool) {
         }
     } else if known_rows {
         if v >= reference.acc_lo && v <= reference.acc_hi {
-            assert!(ok, "C12.x86_64 value accepted by both GNU ld and lld is accepted (R_X86_64_8/16/GOT32 rows)");
+            if r_type == R_X86_64_GOT32 {
+                assert!(ok, "C12.x86_64 value accepted by both GNU ld and lld is accepted (R_X86_64_GOT32 row)");
+            } else {
+                assert!(ok, "C12.x86_64 value accepted by both GNU ld and lld is accepted (R_X86_64_8/16 rows)");
+            }
         }
         if v < reference.rej_lo || v > reference.rej_hi {
             assert!(!ok, "C12.x86_64 value rejected by both GNU ld and lld is rejected (R_X86_64_GOT32 row)");
